@@ -146,6 +146,12 @@ pub fn mutants() -> Vec<CfgCase> {
 			("period-overflow", json!("18446744073709551615w")),
 			("period-sum-overflow", json!("18446744073709551615s1s")),
 			("unicode", json!("ümlaut.例え.test")),
+			// long texts of 2-, 3- and 4-byte characters behind 0..1 ASCII characters: wherever a message that quotes the value is cut,
+			// the cut falls inside a character for one of them
+			("long-2-byte", json!("\u{e9}".repeat(1500))),
+			("long-2-byte+1", json!(format!("a{}", "\u{e9}".repeat(1500)))),
+			("long-3-byte", json!("\u{20ac}".repeat(1000))),
+			("long-4-byte", json!("\u{1d11e}".repeat(800))),
 		];
 		for (rn, rv) in reps {
 			let mut c = base.clone();
@@ -295,6 +301,20 @@ pub fn malformed_texts() -> Vec<CfgCase> {
 			cut -= 1;
 		}
 		out.push(CfgCase { what: format!("configuration text truncated at byte {cut}"), main: text[..cut].to_string(), extra: vec![], also_daemon: false, predicted_first_ms: None });
+	}
+	// syntax errors on long lines of multi-byte characters (the parser's message quotes the line), at every alignment
+	for (ci, ch) in ["\u{e9}", "\u{20ac}", "\u{1d11e}"].iter().enumerate() {
+		for pad in 0..=ch.len() {
+			for (ki, kind) in ["unterminated-string", "bare-text", "bad-key"].iter().enumerate() {
+				let body = format!("{}{}", "a".repeat(pad), ch.repeat(1200 / ch.len()));
+				let line = match ki {
+					0 => format!("[global]\nrenew_delay = \"{body}\n"),
+					1 => format!("[global]\n{body}\n"),
+					_ => format!("[global]\n\"{body}\" == 1\n"),
+				};
+				out.push(CfgCase { what: format!("{kind} on a long line of {}-byte characters after {pad} ASCII characters (#{ci})", ch.len()), main: format!("{line}{text}"), extra: vec![], also_daemon: false, predicted_first_ms: None });
+			}
+		}
 	}
 	let inserts = ["[[", "]]", "=", "\"", "'''", "\n[global]\n", "{", "#", "\u{0}", "\\u12"];
 	for (i, ins) in inserts.iter().enumerate() {
